@@ -43,6 +43,7 @@ class GroundResult:
         self.name = name
         self.obligations = 0
         self.failed = []
+        self.undecided_list = []
         self.samples = []
         self.time = 0.0
         self.error = None
@@ -53,6 +54,10 @@ class GroundResult:
             self.samples.append(label)
         if not ok:
             self.failed.append({"obligation": label, "detail": detail})
+
+    def undecided(self, label, why):
+        self.obligations += 1
+        self.undecided_list.append((label, why))
 
 
 class FrameResult(GroundResult):
@@ -85,6 +90,14 @@ class CheckContext:
         r = self.verifier.prove(name, contract, **kw)
         r.contract = contract
         self.proofs.append(r)
+        if os.environ.get("VERIF_VERBOSE"):
+            from collections import Counter
+            print(f"  [prove] {name}: paths={r.paths} vcs={dict(Counter(v.status for v in r.vcs))} "
+                  f"inapplicable={len(r.inapplicable)} err={bool(r.error)} {r.time:.1f}s", file=sys.stderr, flush=True)
+            for pid, why in r.inapplicable[:3]:
+                print(f"      inapplicable path{pid}: {why}", file=sys.stderr)
+            if r.error:
+                print("      " + r.error[-600:], file=sys.stderr)
         return r
 
     def ground(self, name, fn):
@@ -242,8 +255,10 @@ def finish(ctx, lock_mode=False):
         if g.obligations == 0:
             checker_errors.append(f"{g.name}: {kind} check generated no obligations")
         n_ground += g.obligations
-        n_ground_ok += g.obligations - len(g.failed)
-        if not g.failed:
+        n_ground_ok += g.obligations - len(g.failed) - len(g.undecided_list)
+        for lab, why in g.undecided_list:
+            undecided.append((g.name, lab, why))
+        if not g.failed and not g.undecided_list:
             proved_names.append(f"{g.name}/*")
         for f in g.failed[:10]:
             report_violation(g.name, str(f["obligation"]), f)
